@@ -231,6 +231,23 @@ def run_repeated(case, bus, ex):
             dt_ok = abs(float(rs.dt) - n * float(st.dt)) <= 1e-14 * max(1.0, n * float(st.dt))
             bus.judge("repeated_stepper", max(float(np.max(np.abs(got - np.asarray(v)))) / S, 0.0 if dt_ok else 1.0), 1e-11 * max(1, n), sig, sample=info,
                       witness=dict(info, diff=float(np.max(np.abs(got - np.asarray(v)))), dt=float(rs.dt), expected_dt=n * float(st.dt)), nontrivial=n >= 1)
+            # nested wrappers: a repeated stepper is itself an inner stepper (effective dt multiplies, states equal the flat loop), also under ForcedStepper
+            if n in (2, 3) and not (mixed and N % 2 == 0):
+                nested = ex.RepeatedStepper(rs, 2)
+                w2 = jnp.asarray(u)
+                for _ in range(2 * n):
+                    w2 = st(w2)
+                gotn = np.asarray(nested(jnp.asarray(u)))
+                dtn_ok = abs(float(nested.dt) - 2 * n * float(st.dt)) <= 1e-14 * max(1.0, 2 * n * float(st.dt))
+                bus.judge("repeated_stepper", max(float(np.max(np.abs(gotn - np.asarray(w2)))) / S, 0.0 if dtn_ok else 1.0), 1e-11 * 2 * n, sig + ("nested",),
+                          witness=dict(info, nested=True, dt=float(nested.dt), expected_dt=2 * n * float(st.dt)))
+                f = jnp.asarray(G.random_state(rng, kind, C, D, N, amp=0.3))
+                gotf = np.asarray(ex.ForcedStepper(nested)(jnp.asarray(u), f))
+                w3 = jnp.asarray(u) + 2 * n * float(st.dt) * f
+                for _ in range(2 * n):
+                    w3 = st(w3)
+                Sf = float(np.max(np.abs(np.asarray(w3)))) + S
+                bus.judge("repeated_stepper", float(np.max(np.abs(gotf - np.asarray(w3)))) / Sf, 1e-11 * 2 * n, sig + ("forced(nested)",), witness=dict(info, nested=True, forced=True))
             # shape validation of the wrapper
             bad = jnp.zeros((C + 1,) + (N,) * D)
             try:
